@@ -242,7 +242,15 @@ func TestVerifReplay(t *testing.T) {
 			}
 			done <- "VERIF-RETURNED"
 		}()
-		%(entry)s()
+		for attempt := 0; attempt < %(attempts)d; attempt++ {
+			if attempt > 0 {
+				zz.Rewind()
+			}
+			%(entry)s()
+			if len(zz.Failures) > 0 {
+				break
+			}
+		}
 	}()
 	select {
 	case s := <-done:
@@ -291,8 +299,8 @@ def apply_redirects(redirects, tmp):
         if head not in text:
             continue
         text = text.replace(head, "func %s %s_verifOrig(" % (r["recv"], r["name"]))
-        text += "\n// replay redirect (mirrors the engine cut)\nfunc %s %s(%s) %s { return %s }\n" % (
-            r["recv"], r["name"], r["params"], r["result"], r["target"])
+        text += "\n// replay redirect (mirrors the engine cut)\nfunc %s %s(%s) %s { %s%s }\n" % (
+            r["recv"], r["name"], r["params"], r["result"], "return " if r["result"] else "", r["target"])
         dst = os.path.join(tmp, os.path.basename(r["file"]))
         with open(dst, "w") as f:
             f.write(text)
@@ -300,7 +308,7 @@ def apply_redirects(redirects, tmp):
     return out
 
 
-def write_replay(prop, pkg, entry, v, tape, expect, hang_s=8, redirects=None):
+def write_replay(prop, pkg, entry, v, tape, expect, hang_s=8, redirects=None, attempts=1):
     """Writes the replay artefacts under /verif/out/<prop>/ and returns the path of the spec file."""
     odir = os.path.join(VERIF, "out", prop)
     os.makedirs(odir, exist_ok=True)
@@ -309,7 +317,7 @@ def write_replay(prop, pkg, entry, v, tape, expect, hang_s=8, redirects=None):
     tape_path = os.path.join(odir, h + "_tape.json")
     spec_path = os.path.join(odir, h + "_replay.json")
     with open(test_path, "w") as f:
-        f.write(TEST_TMPL % {"pkg": pkg, "entry": entry, "hang_s": hang_s})
+        f.write(TEST_TMPL % {"pkg": pkg, "entry": entry, "hang_s": hang_s, "attempts": attempts})
     with open(tape_path, "w") as f:
         json.dump(tape, f, indent=1)
     spec = {"property": prop, "pkg": pkg, "entry": entry, "test": test_path, "tape": tape_path, "expect": expect, "redirects": redirects or [],
@@ -434,14 +442,14 @@ class Check:
                 return k
         return None
 
-    def handle(self, pkg, entry, v, make_tape=None, hang_s=8, replay=True, expect=None, redirects=None):
+    def handle(self, pkg, entry, v, make_tape=None, hang_s=8, replay=True, expect=None, redirects=None, attempts=1):
         """Processes one engine violation: known finding, or replay and report."""
         if v.get("unknown"):
             self.inconclusive.append("%s: obligation %s/%s at %s undecided (solver unknown)" % (entry, v["kind"], v["id"], v["pos"]))
             return
         k = self.classify(entry, v)
         tape = make_tape(v) if make_tape else tape_from(v)
-        spec = write_replay(self.prop, pkg, entry, v, tape, expect or expect_for(v), hang_s=hang_s, redirects=redirects)
+        spec = write_replay(self.prop, pkg, entry, v, tape, expect or expect_for(v), hang_s=hang_s, redirects=redirects, attempts=attempts)
         if k is not None:
             if not any(x["what"] == k["what"] for x in self.known_hit):
                 # replay once per known finding to keep the file honest
